@@ -15,6 +15,9 @@
 (*   c   the specification rejects, the implementation accepts  (DEVIATION,  *)
 (*       the dangerous kind); c-fold when the program is FoldSensitive       *)
 (*       (named difference D5: not a deviation, counted)                     *)
+(*   b-decl / c-decl  verdicts differ on a program in which a function       *)
+(*       literal is bound to a name its body mentions (named difference D8:  *)
+(*       the text is a declaration; not a deviation, counted)                *)
 (*   d   both reject (classes need not agree)                                *)
 (*   fold  the implementation reports the run-time error of a constant       *)
 (*       sub-expression that failed while being folded (named difference D4  *)
@@ -38,7 +41,7 @@ N == Len(Cases)
 FoldErrors == DocErrors
 Nil == [kind |-> "nil"]
 
-Kind(c, r, i, sacc, it, st, sens) ==
+Kind(c, r, i, sacc, it, st, sens, decl) ==
   IF r.i # i \/ r.id # c.id THEN "tool"                                 \* records and cases out of step
   ELSE IF r.class = "render" THEN "tool"
   ELSE IF r.class = "syntax" THEN (IF sacc THEN "tool" ELSE "d-syntax")
@@ -46,12 +49,12 @@ Kind(c, r, i, sacc, it, st, sens) ==
   ELSE IF ~r.accepted /\ r.class \in FoldErrors THEN "fold"
   ELSE IF sacc /\ r.accepted THEN (IF it = st \/ (sens /\ Matches(it, st)) THEN "a"
                                     ELSE IF Matches(it, st) THEN "a-narrow" ELSE "a-dev")
-  ELSE IF sacc THEN "b"
-  ELSE IF r.accepted THEN (IF sens THEN "c-fold" ELSE "c")
+  ELSE IF sacc THEN (IF decl THEN "b-decl" ELSE "b")
+  ELSE IF r.accepted THEN (IF decl THEN "c-decl" ELSE IF sens THEN "c-fold" ELSE "c")
   ELSE "d"
 \* tp: the specification's judgement of the case's program
 Verdict(c, r, i, tp) ==
-  [kind |-> Kind(c, r, i, ~IsRej(tp), IF r.accepted THEN Unwire(r.st) ELSE TNever, IF IsRej(tp) THEN TNever ELSE tp.t, FoldSensitive(c.prog)),
+  [kind |-> Kind(c, r, i, ~IsRej(tp), IF r.accepted THEN Unwire(r.st) ELSE TNever, IF IsRej(tp) THEN TNever ELSE tp.t, FoldSensitive(c.prog), SelfNamedLiteral(c.prog)),
    eq |-> ~IsRej(tp) /\ r.accepted /\ Unwire(r.st) = tp.t,
    sens |-> FoldSensitive(c.prog), i |-> i, id |-> c.id, neg |-> c.negative,
    spec |-> IF IsRej(tp) THEN [k |-> "reject", why |-> tp.why] ELSE Wire(tp.t),
